@@ -352,6 +352,206 @@ def check_parser_literals(ctx, fx, rule):
     ctx.floor(rule, n, 8, "fixed spellings compared")
 
 
+def _edge_conditions(f, bid):
+    """(condition text, polarity) of every branch one of whose edges dominates block bid (the edge's target dominates
+    bid and is entered through that edge only)"""
+    from lib.loops import dominators
+    dom, _p = dominators(f)
+    blocks = {b["id"]: b for b in f["blocks"]}
+    preds = {}
+    for b in f["blocks"]:
+        for e in b["succ"]:
+            if not e.get("pruned"):
+                preds.setdefault(e["to"], []).append(b["id"])
+    inits = C.single_inits(f)
+    out = []
+    for d in dom.get(bid, ()):
+        db = blocks[d]
+        c = C.term_cond(db)
+        succ = [e for e in db["succ"] if not e.get("pruned") and e.get("when") in ("true", "false")]
+        if c is None or len(succ) != 2 or d == bid:
+            continue
+        for e in succ:
+            other = [x["to"] for x in succ if x is not e][0]
+            if e["to"] in dom.get(bid, ()) and other not in dom.get(bid, ()) and len(preds.get(e["to"], [])) == 1:
+                def emit(x, pol):
+                    x = X.strip(x)
+                    while isinstance(x, dict) and x.get("k") == "un" and x.get("op") == "!":
+                        pol = not pol
+                        x = X.strip(x["e"])
+                    # a conjunction known true gives each conjunct; a disjunction known false gives each disjunct negated
+                    if isinstance(x, dict) and x.get("k") == "bin" and ((x.get("op") == "&&" and pol) or (x.get("op") == "||" and not pol)):
+                        emit(x["l"], pol)
+                        emit(x["r"], pol)
+                        return
+                    out.append((X.show(x).replace("this->", ""), pol))
+                emit(C.resolve_flag(c, inits), e["when"] == "true")
+    return out
+
+
+def check_drive_letter_callers(ctx, fx, rule):
+    """T6b.  "starts with a Windows drive letter" looks at a THIRD code point (end of input or one of / \\ ? #), so its
+    argument must be the whole remaining input: a view cut to two bytes turns "/C:foo" into a drive letter."""
+    n = 0
+    for f in fx.functions:
+        if not C.first_party(f) or not f.get("blocks"):
+            continue
+        for nd, st, b in C.all_nodes(f):
+            if nd.get("k") == "call" and nd.get("name") == "is_windows_drive_letter" and nd.get("args"):
+                n += 1
+                a = X.strip(nd["args"][0])
+                while isinstance(a, dict) and a.get("k") == "construct" and len(a.get("args", [])) == 1:
+                    a = X.strip(a["args"][0])
+                cut = None
+                if isinstance(a, dict) and a.get("k") == "call" and a.get("name") == "substr" and len(a.get("args", [])) == 2:
+                    cut = X.const_val(a["args"][1])
+                ctx.check(rule, "%s: is_windows_drive_letter(%s)" % (f["qname"].split("::")[-1], X.show(nd["args"][0])[:40]),
+                          cut is None or cut >= 3, "argument not cut below three code points",
+                          "is_windows_drive_letter is given `%s`, a view of at most %s bytes: the Standard's 'starts with a Windows "
+                          "drive letter' also requires that the drive letter is followed by the end of the input or by / \\ ? #, which "
+                          "a two-byte view always satisfies" % (X.show(nd["args"][0])[:60], cut),
+                          where=(st.get("loc") or f["loc"]).replace("/repo/", ""))
+    ctx.floor(rule, n, 3, "callers of is_windows_drive_letter")
+
+
+def check_dash_dot_guard(ctx, fx, rule):
+    """S7.  URL serializer: "If url's host is null, url does not have an opaque path, url's path's size is greater than 1,
+    and url's path[0] is the empty string, then append U+002F (/) followed by U+002E (.)".  In the aggregator the guard
+    bytes are inserted into the buffer; host null = no authority (an EMPTY host still has "//", which already protects
+    the path).  Every insertion of "/." must therefore be reached only where has_authority() is false."""
+    n = 0
+    for f in fx.functions:
+        if not (C.first_party(f) and f.get("cls") == "ada::url_aggregator" and f.get("blocks")):
+            continue
+        for b in f["blocks"]:
+            for st in b["stmts"]:
+                for nd in X.stmt_nodes(st, local=True):
+                    if not (nd.get("k") == "call" and nd.get("name") == "insert" and nd.get("recv") is not None and
+                            X.path(nd["recv"]) == "this.buffer" and len(nd.get("args", [])) >= 2):
+                        continue
+                    a1 = X.strip(nd["args"][1])
+                    while isinstance(a1, dict) and a1.get("k") == "construct" and len(a1.get("args", [])) == 1:
+                        a1 = X.strip(a1["args"][0])
+                    lit = a1.get("v") if isinstance(a1, dict) and a1.get("k") == "lit" and a1.get("str") else None
+                    if lit is None and isinstance(a1, dict) and a1.get("k") == "ref":
+                        init = C.single_inits(f).get(a1.get("id"))
+                        i0 = X.strip(init) if init is not None else None
+                        while isinstance(i0, dict) and i0.get("k") == "construct" and len(i0.get("args", [])) >= 1:
+                            i0 = X.strip(i0["args"][0])
+                        lit = i0.get("v") if isinstance(i0, dict) and i0.get("k") == "lit" and i0.get("str") else None
+                    if lit != "/.":
+                        continue
+                    n += 1
+                    conds = _edge_conditions(f, b["id"])
+                    ok = any(t.startswith("has_authority()") and pol is False for t, pol in conds)
+                    ctx.check(rule, "%s: \"/.\" inserted only when there is no authority" % f["qname"].split("::")[-1], ok,
+                              "behind !has_authority()",
+                              "%s inserts the \"/.\" guard under [%s]: the guard belongs in front of a path starting with \"//\" only "
+                              "when the host is NULL (no authority); with an empty host the \"//\" of the authority already "
+                              "protects the path, and the two extra bytes belong to no component"
+                              % (f["qname"], "; ".join("%s%s" % ("" if pol else "!", t[:50]) for t, pol in conds)),
+                              where=(st.get("loc") or f["loc"]).replace("/repo/", ""))
+    ctx.floor(rule, n, 2, "insertions of the \"/.\" guard")
+
+
+def check_setter_empty_path(ctx, fx, rule):
+    """A6.  Path start state with a state override: "Otherwise, if state override is given and url's host is null, append
+    the empty string to url's path" -- for a non-special URL the pathname setter with the empty value leaves "/" only when
+    the host is NULL; with an empty host (foo://?q) the path becomes empty."""
+    n = 0
+    f = fx.fn1("ada::url::parse_path")
+    conds = set()
+    for b in f["blocks"]:
+        c = C.term_cond(b)
+        if c is not None:
+            conds.add(X.show(X.strip(c)).replace("this->", ""))
+    n += 1
+    host_tests = sorted(t for t in conds if "host" in t and "is_special" not in t)
+    ctx.check(rule, "url::parse_path: the empty value keeps \"/\" only for a null host",
+              any("host.has_value()" in t for t in host_tests) and not any("empty()" in t for t in host_tests),
+              "; ".join(host_tests),
+              "ada::url::parse_path decides the empty-value case with [%s]: the path stays \"/\" only when the host is null "
+              "(!host.has_value()), not when it is merely empty" % "; ".join(host_tests), where=f["loc"].replace("/repo/", ""))
+    f = fx.fn1("ada::url_aggregator::parse_path")
+    conds = set()
+    for b in f["blocks"]:
+        c = C.term_cond(b)
+        if c is not None:
+            conds.add(X.show(X.strip(c)).replace("this->", ""))
+    n += 1
+    ctx.check(rule, "url_aggregator::parse_path: the empty value keeps \"/\" only without an authority",
+              any("has_authority()" in t for t in conds), "; ".join(sorted(t for t in conds if "host" in t or "authority" in t)),
+              "ada::url_aggregator::parse_path no longer consults has_authority() in its empty-value case: host_start == host_end "
+              "holds for an EMPTY host as well as for a null one, and only the null host keeps \"/\"",
+              where=f["loc"].replace("/repo/", ""))
+    ctx.floor(rule, n, 2, "pathname setters' empty-value case")
+
+
+def check_leading_zero_order(ctx, fx, rule):
+    """H10.  The decimal IPv4 fast path must hand every octet with a leading zero to the general parser (there it is
+    octal: 010 = 8; 08 is invalid).  The test `val == 0` therefore has to look at the FIRST digit: no accumulation
+    `val = val * 10 + d` may come before it on the way from the first digit."""
+    from lib.loops import dominators
+    fs = [f for f in fx.functions if f["name"] == "parse_ipv4_decimal_scalar" and f.get("blocks")]
+    if not fs:
+        ctx.broken("%s: parse_ipv4_decimal_scalar not found" % rule)
+    n = 0
+    for f in fs:
+        dom, _p = dominators(f)
+        acc_blocks, tests = [], []
+        for b in f["blocks"]:
+            for i, st in enumerate(b["stmts"]):
+                for nd in X.stmt_nodes(st, local=True):
+                    if nd.get("k") == "assign" and X.show(X.strip(nd["lhs"])) == "val" and "val" in X.show(nd["rhs"]) and "*" in X.show(nd["rhs"]):
+                        acc_blocks.append((b["id"], i))
+            c = C.term_cond(b)
+            c0 = X.strip(c) if c is not None else None
+            if isinstance(c0, dict) and c0.get("k") == "bin" and c0.get("op") == "==" and X.show(X.strip(c0["l"])) == "val" and X.const_val(c0["r"]) == 0:
+                tests.append(b["id"])
+        if not tests or not acc_blocks:
+            ctx.broken("%s: leading-zero test or digit accumulation not recognised in parse_ipv4_decimal_scalar" % rule)
+        for tb in tests:
+            n += 1
+            before = [a for a in acc_blocks if a[0] == tb or (a[0] in dom.get(tb, ()) and a[0] != tb)]
+            ctx.check(rule, "parse_ipv4_decimal_scalar: `val == 0` tests the first digit", not before,
+                      "no accumulation in front of the test",
+                      "a `val = val * 10 + d` accumulation runs before the leading-zero test, so the test sees two digits and only "
+                      "\"00\" is deferred: octets such as 010 or 07 are read as decimal (192.168.010.1 stays as it is, 1.2.3.08 is accepted)",
+                      where=f["loc"].replace("/repo/", ""))
+    ctx.floor(rule, n, 1, "leading-zero tests of the decimal IPv4 fast path")
+
+
+def check_authority_buffer_test(ctx, fx, rule):
+    """S2b.  Authority state: "If atSignSeen is true and buffer is the empty string, host-missing validation error, return
+    failure" -- buffer is what was collected up to the delimiter, not the rest of the input."""
+    from rules import statemachine as SM
+    n = 0
+    for f, m in SM.machines(fx):
+        tag = SM.inst_tag(f)
+        inits = C.single_inits(f)
+        for bid in m.region.get("AUTHORITY", ()):
+            b = m.blocks[bid]
+            c = C.term_cond(b)
+            c0 = X.strip(c) if c is not None else None
+            if not (isinstance(c0, dict) and c0.get("k") == "call" and c0.get("name") == "empty" and c0.get("recv") is not None):
+                continue
+            conds = _edge_conditions(f, bid)
+            if not any("at_sign_seen" in t and pol for t, pol in conds):
+                continue
+            r0 = X.strip(c0["recv"])
+            init = inits.get(r0.get("id")) if isinstance(r0, dict) and r0.get("k") == "ref" else None
+            cut = init is not None and any(isinstance(x, dict) and x.get("k") == "call" and x.get("name") == "substr" and
+                                           len(x.get("args", [])) == 2 and X.const_val(x["args"][0]) == 0 for x in X.walk(init))
+            n += 1
+            ctx.check(rule, "parse_url_impl<%s>: empty-buffer test behind atSignSeen" % tag, cut,
+                      "`%s.empty()`, %s = <view>.substr(0, <delimiter>)" % (X.show(r0), X.show(r0)),
+                      "behind at_sign_seen the authority state tests `%s.empty()`; the Standard tests the BUFFER (the input up to the "
+                      "delimiter, `view.substr(0, location)`): with the rest of the input instead, \"foo://user@/path\" is "
+                      "accepted and keeps credentials with an empty host" % X.show(r0),
+                      where=(b["term"].get("loc") or f["loc"]).replace("/repo/", ""))
+    ctx.floor(rule, n, 2, "empty-buffer tests in the authority state")
+
+
 def check_origin(ctx, fx, rule):
     """T10.  The origin of a URL: special schemes other than file give (scheme, host, port); a blob URL gives the origin of
     the URL in its path when that one is http or https; everything else gives an opaque origin ("null").  Both URL types
